@@ -118,21 +118,21 @@ impl<'a> TryFrom<Data<'a>> for sam::alignment::record_buf::Data {
 }
 
 pub(crate) fn get_raw_cigar<'a>(src: &mut &'a [u8]) -> io::Result<Option<&'a [u8]>> {
-    use noodles_sam::alignment::record::data::field::Type;
+    use noodles_sam::alignment::record::data::field::{Type, value::array::Subtype};
 
     use self::field::{
         decode_tag, decode_type, decode_value,
         value::array::{decode_raw_array, decode_subtype},
     };
 
-    fn get_array_field<'a>(src: &mut &'a [u8]) -> io::Result<Option<(Tag, &'a [u8])>> {
+    fn get_array_field<'a>(src: &mut &'a [u8]) -> io::Result<Option<(Tag, Subtype, &'a [u8])>> {
         let tag = decode_tag(src)?;
         let ty = decode_type(src)?;
 
         if ty == Type::Array {
             let subtype = decode_subtype(src)?;
             let buf = decode_raw_array(src, subtype)?;
-            Ok(Some((tag, buf)))
+            Ok(Some((tag, subtype, buf)))
         } else {
             decode_value(src, ty)?;
             Ok(None)
@@ -140,8 +140,15 @@ pub(crate) fn get_raw_cigar<'a>(src: &mut &'a [u8]) -> io::Result<Option<&'a [u8
     }
 
     while !src.is_empty() {
-        if let Some((Tag::CIGAR, buf)) = get_array_field(src)? {
-            return Ok(Some(buf));
+        if let Some((Tag::CIGAR, subtype, buf)) = get_array_field(src)? {
+            return if subtype == Subtype::UInt32 {
+                Ok(Some(buf))
+            } else {
+                Err(io::Error::new(
+                    io::ErrorKind::InvalidData,
+                    "invalid CIGAR data field type",
+                ))
+            };
         }
     }
 
